@@ -184,6 +184,28 @@ fn delimiter_case(rng: &mut Rng, i: usize) -> Case {
     Case { sdl, cfg: CfgCase::from_project(&pc), origin, model: Some(with_builtin_scalars(&schema.doc)), model_sdl: Some(schema.sdl()), light: i % 8 != 0 }
 }
 
+/// Stream "interface hierarchies": schemas with `GenCfg::iface_hierarchies` (interfaces implementing interfaces to depth
+/// ≥ 1, diamonds, several unrelated hierarchies, interfaces nobody implements; objects listing the transitive closure in
+/// RANDOM order — sub-interface before / after its parents, unrelated interfaces in between and after), a third of them
+/// written with `extend …` items (so `implements` lists are partly appended by extensions). The possible types of EVERY
+/// interface are compared in both files (K on the trees; O: `__resolveType` unions against the abstract model in every
+/// case, the membership tables of all four namespaces in one case of three).
+fn hierarchy_case(rng: &mut Rng, i: usize) -> (Case, BTreeSet<String>) {
+    let cfg = GenCfg { hostile_text: false, descriptions: i % 4 == 1, iface_hierarchies: true, ..GenCfg::default() };
+    let schema = gen_schema(rng, &cfg);
+    let mut pc = gen_project_cfg(rng, &schema, false);
+    pc.emit_schema_runtime = i % 5 == 3;
+    let mut origin = format!("interface-hierarchy:{i}");
+    let sdl = if i % 3 == 1 {
+        origin.push_str(":extensions");
+        nvh::render::tsdoc_text(&split_into_extensions(rng, &schema))
+    } else {
+        schema.sdl()
+    };
+    let feats = iface_shape_features(&schema);
+    (Case { sdl, cfg: CfgCase::from_project(&pc), origin, model: Some(with_builtin_scalars(&schema.doc)), model_sdl: Some(schema.sdl()), light: i % 3 != 0 }, feats)
+}
+
 fn doc_tokens(text: &str) -> Option<Vec<String>> {
     let toks = tsparse::lex(text).ok()?;
     Some(toks.into_iter().filter_map(|(t, _)| if let tsparse::Tok::Doc(d) = t { Some(normalise_doc(&d).unwrap_or_else(|| format!("<malformed>{d}"))) } else { None }).collect())
@@ -872,6 +894,17 @@ fn main() {
     for i in 0..n {
         let c = delimiter_case(&mut rng, i);
         rep.count("origin:delimiter-text");
+        run_case(&mut rep, &mut drv, &c);
+    }
+    // stream "interface hierarchies" (own random stream: the streams above are unchanged)
+    let mut rng = Rng::new(args.seed ^ 0xC10_1FACE);
+    let n = args.budget(45, 500) * boost;
+    for i in 0..n {
+        let (c, feats) = hierarchy_case(&mut rng, i);
+        rep.count("origin:interface-hierarchy");
+        for f in feats {
+            rep.count(&format!("feature:hier:{f}"));
+        }
         run_case(&mut rep, &mut drv, &c);
     }
     rep.write(&args);
